@@ -1,6 +1,6 @@
 SPECIFICATION Spec
 CONSTANTS
-  Sessions = {"asn4", "asn2"}
+  Sessions = {"asn4", "asn2", "asn4a"}
   Msgs <- MCMsgs
   SessDep <- MCSessDep
   KeyIncludesSession = TRUE
